@@ -18,7 +18,10 @@ def _build(repo):
     crate = os.path.join(ROOT, "replay")
     if not os.path.isdir(crate):
         return None, "no replay crate"
-    tdir = os.environ.get("VERIF_REPLAY_TARGET", "/var/tmp/verif-replay-target")
+    import hashlib
+    # one target dir per repository path: artifacts of a scratch copy are never mistaken for /repo's
+    tdir = os.path.join(os.environ.get("VERIF_REPLAY_TARGET", "/var/tmp/verif-replay-target"),
+                        hashlib.sha1(os.path.abspath(repo).encode()).hexdigest()[:12])
     work = tempfile.mkdtemp(prefix="verif-replay-")
     try:
         shutil.copytree(crate, os.path.join(work, "replay"), ignore=shutil.ignore_patterns("target"))
